@@ -113,6 +113,14 @@ where
 
     /// Await this task until it is ready and we've received the result.
     pub async fn ready(&self) -> T {
+        // Register for the "ready" signal _before_ looking at the result. `notify_waiters` only
+        // wakes futures which already exist at that point: if the task was marked as done between
+        // the check below and a later registration, the signal would be lost and we would wait
+        // forever for a result which is already there.
+        let notified = self.ready_signal.notified();
+        tokio::pin!(notified);
+        notified.as_mut().enable();
+
         // Check if an result already exists and return it directly.
         {
             let ready_result = self.ready_result.lock().await;
@@ -129,7 +137,7 @@ where
         p2panda_core::verif::yield_point("task.ready.between_check_and_wait").await;
 
         // If not, we wait until we got notified that an result exists.
-        self.ready_signal.notified().await;
+        notified.await;
 
         let ready_result = self.ready_result.lock().await;
         ready_result
